@@ -448,3 +448,111 @@ def machine_q_stream(ctx, worlds, runs):
     mism = cached_model_stream(ctx, "S-simq", HEADER_Q, "world * list qev", "(fun p => observe_q (fst p) (snd p))", cases, 10,
                                ["Model/Sim.v", "Model/SimQ.v", "Model/EventQ.v", "Gen/Src_Task.v", "Gen/Src_Event.v", "Model/Val.v"])
     return [(idx[k], mv, cases[k][1]) for k, mv in mism], len(cases)
+
+
+# ------------------------------------------------------------------ CSV rows as an output of the machine (Model/SimRows.v)
+HEADER_ROWS = "From Verif Require Import Gen.Src_Task Gen.Src_Event Model.Sim Model.SimRows."
+ROW_KINDS = ("WORKER_POOL_UTILIZATION", "TASK_RELEASE", "TASK_PLACEMENT", "TASK_FINISHED", "MISSED_DEADLINE", "TASK_CANCEL",
+             "SIMULATOR_END")
+
+
+def rows_expected(run, nm):
+    """the implementation's captured CSV rows of the modelled kinds, canonicalised: task names -> machine ids, pool ids ->
+    position in the cluster description, resources aggregated by name; each contiguous block of utilisation rows is sorted
+    by (pool, resource) because the order inside a block follows dict insertion order.  Returns (rows, layout text, reason
+    the trace cannot be judged or None)."""
+    pools = {}
+    layout = []
+    for e in run["log"]:
+        if e[0] == "cluster":
+            for k, pool in enumerate(e[1]):
+                pools[pool[1]] = k
+                rs = sorted({nm.rid(rn) for (_w, res) in pool[2] for (rn, _i, _q) in res})
+                layout.append("(%s, %s, %s)" % (gz(k), glist([gz(nm.wid(w)) for (w, _r) in pool[2]]), glist([gz(r) for r in rs])))
+    raw = [r.split(",") for r in run["rows"]]
+    id2name = {}
+    for r in raw:
+        if len(r) > 8 and r[1] == "TASK_RELEASE":
+            id2name[r[7]] = "%s@%s" % (r[2], r[8])
+        elif len(r) > 7 and r[1] == "TASK_FINISHED":
+            id2name[r[7]] = "%s@%s" % (r[2], r[4])
+        elif len(r) > 5 and r[1] == "TASK_PLACEMENT":
+            id2name[r[5]] = "%s@%s" % (r[2], r[3])
+        elif len(r) > 5 and r[1] == "TASK_CANCEL":
+            id2name[r[4]] = "%s@%s" % (r[2], r[5])
+    out = []
+    block = []
+
+    def flush():
+        if block:
+            out.extend(sorted(block))
+            del block[:]
+
+    def tid(name):
+        return nm.t.get(name, -2)
+
+    for r in raw:
+        kind = r[1] if len(r) > 1 else None
+        if kind == "WORKER_POOL_UTILIZATION":
+            if r[2] not in pools or r[3] not in nm.r:
+                return None, None, "utilisation row for an unknown pool or resource"
+            block.append([0, int(r[0]), pools[r[2]], nm.r[r[3]], int(float(r[4])), int(float(r[5]))])
+            continue
+        flush()
+        if kind == "TASK_RELEASE":
+            out.append([1, int(r[0]), tid("%s@%s" % (r[2], r[8])), int(r[5]), int(r[6])])
+        elif kind == "TASK_PLACEMENT":
+            agg = {}
+            for i in range(8, len(r) - 2, 3):
+                agg[r[i]] = agg.get(r[i], 0) + int(float(r[i + 2]))
+            req = [[nm.rid(k), v] for k, v in sorted(agg.items())]
+            out.append([2, int(r[0]), tid("%s@%s" % (r[2], r[3])), int(r[7]), req])
+        elif kind == "TASK_FINISHED":
+            out.append([3, int(r[0]), tid("%s@%s" % (r[2], r[4])), int(r[5]), int(r[6])])
+        elif kind == "MISSED_DEADLINE":
+            out.append([4, int(r[0]), tid(id2name.get(r[5], "?")), int(r[4])])
+        elif kind == "TASK_CANCEL":
+            out.append([5, int(r[0]), tid("%s@%s" % (r[2], r[5]))])
+        elif kind == "SIMULATOR_END":
+            out.append([6, int(r[0]), int(r[2]), int(r[3]), int(r[4])])
+    flush()
+    return out, glist(layout), None
+
+
+def rows_stream(ctx, worlds, runs, outside=lambda w: False):
+    """S-rows: the rows the machine emits for the run's call log vs the rows the simulator wrote.
+    Returns list of (world index, index of the first differing row, model row, implementation row)."""
+    cases = []
+    idx = []
+    skipped = {}
+    for i, (w, r) in enumerate(zip(worlds, runs)):
+        if r["status"] != "ended" or not r["log"] or not r.get("rows") or len(r["log"]) > MAX_LOG or outside(w):
+            skipped["not ended / too long / outside the claim"] = skipped.get("not ended / too long / outside the claim", 0) + 1
+            continue
+        gworld, gevs, nm, unsup, _dom = convert(r, w)
+        if unsup:
+            skipped[unsup.split(" (")[0]] = skipped.get(unsup.split(" (")[0], 0) + 1
+            continue
+        exp, layout, why = rows_expected(r, nm)
+        if why:
+            skipped[why] = skipped.get(why, 0) + 1
+            continue
+        cases.append(("(%s, %s, %s)" % (gworld, layout, gevs), exp, i))
+        idx.append(i)
+    ctx.cov.setdefault("input_distribution", {})["sim_runs_not_fed_to_rows_model"] = skipped
+    kinds = {}
+    for c in cases:
+        for row in c[1]:
+            kinds[row[0]] = kinds.get(row[0], 0) + 1
+    ctx.cov["input_distribution"]["rows_compared_by_kind"] = {ROW_KINDS[k]: v for k, v in sorted(kinds.items())}
+    mism = cached_model_stream(ctx, "S-rows", HEADER_ROWS, "world * layout * list ev",
+                               "(fun p => observe_rows (fst (fst p)) (snd (fst p)) (snd p))", cases, 12,
+                               ["Model/Sim.v", "Model/SimRows.v", "Gen/Src_Task.v", "Gen/Src_Event.v", "Model/Val.v"])
+    out = []
+    for k, mv in mism:
+        exp = cases[k][1]
+        j = 0
+        while isinstance(mv, list) and j < min(len(mv), len(exp)) and mv[j] == exp[j]:
+            j += 1
+        out.append((idx[k], j, mv[j] if isinstance(mv, list) and j < len(mv) else None, exp[j] if j < len(exp) else None))
+    return out, len(cases)
